@@ -137,7 +137,7 @@ impl Prop for C04 {
     }
 
     fn strategy(_leg: &str, tier: Tier) -> BoxedStrategy<Case> {
-        (gen::digraph_labeled(tier.pick(16, 60)), gen::raw_sources())
+        (gen::digraph_labeled_big(tier.pick(16, 60)), gen::raw_sources())
             .prop_map(|((g, family), (raw, class))| {
                 let sources = gen::sources_from(&raw, class, g.order);
                 Case { g, sources, family }
